@@ -303,6 +303,57 @@ func buildValues(c *Ctx, g *gen.G) []struct {
 	return out
 }
 
+// c06Unencodable: values that the builder API accepts but JSON cannot carry (NaN, infinities, maps keyed by
+// interface{} as YAML decoders make them): encoding the holder, alone or nested in larger values, FAILS - it never
+// returns text from which the member has silently gone.
+func c06Unencodable(c *Ctx, g *gen.G) {
+	bads := []interface{}{math.NaN(), math.Inf(1), map[interface{}]interface{}{"k": 1}, []interface{}{1.0, math.Inf(-1)}}
+	for i := 0; i < c.N(8, 100); i++ {
+		for bi, bad := range bads {
+			type hv struct {
+				how string
+				v   interface{}
+			}
+			hdr := spec.ResponseHeader().Typed("number", "double").WithDescription(g.Str()).WithDefault(bad)
+			hdrEnum := spec.ResponseHeader().Typed("number", "").WithEnum(1.0, bad)
+			hdrItems := spec.ResponseHeader().CollectionOf(spec.NewItems().Typed("number", "").WithDefault(bad), "csv")
+			hdrExt := spec.ResponseHeader().Typed("string", "")
+			hdrExt.AddExtension("x-"+g.Name(), bad)
+			par := spec.QueryParam(g.Name()).Typed("number", "").WithDefault(bad)
+			parEnum := spec.QueryParam(g.Name()).Typed("number", "").WithEnum(bad)
+			items := spec.NewItems().Typed("number", "").WithDefault(bad)
+			sch := new(spec.Schema).Typed("number", "").WithDefault(bad)
+			schEx := new(spec.Schema).Typed("number", "").WithExample(bad)
+			schEnum := new(spec.Schema).Typed("number", "").WithEnum(bad)
+			schExt := new(spec.Schema).Typed("object", "")
+			schExt.AddExtension("x-"+g.Name(), bad)
+			schProp := new(spec.Schema).Typed("object", "").SetProperty(g.Name(), *sch)
+			cases := []hv{{"header default", hdr}, {"header enum", hdrEnum}, {"header items default", hdrItems}, {"header extension", hdrExt},
+				{"parameter default", par}, {"parameter enum", parEnum}, {"items default", items},
+				{"schema default", sch}, {"schema example", schEx}, {"schema enum", schEnum}, {"schema extension", schExt}, {"schema property default", schProp},
+				{"response with such a header", spec.NewResponse().WithDescription("d").AddHeader("X-Rate", hdr)},
+				{"response example", spec.NewResponse().WithDescription("d").AddExample("application/json", bad)},
+				{"response schema", spec.NewResponse().WithDescription("d").WithSchema(sch)},
+				{"operation with such a parameter", spec.NewOperation("op").AddParam(par).RespondsWith(200, spec.NewResponse().WithDescription("d").AddHeader("X-Rate", hdrEnum))},
+			}
+			for _, h := range cases {
+				var b []byte
+				var err error
+				pan := safely(func() { b, err = json.Marshal(h.v) })
+				c.Count(fmt.Sprint("unencodable:", h.how, bi, i), true)
+				c.Hit("unencodable:" + h.how)
+				cs := map[string]interface{}{"how": "builder-made " + h.how, "value": fmt.Sprintf("%v (%T)", bad, bad)}
+				switch {
+				case pan != "":
+					c.Fail(Failure{Kind: "crash", Sig: "C06:encode-panic", What: "encoding panics: " + pan, Case: cs})
+				case err == nil:
+					c.Fail(Failure{Kind: "oracle", Sig: "C06:unencodable-value-dropped", What: fmt.Sprintf("a %s that JSON cannot carry was encoded without an error, as %s: the text does not hold what the value holds", h.how, clip(string(b))), Case: cs, Impl: clip(string(b))})
+				}
+			}
+		}
+	}
+}
+
 // c06Unions: the union types have no setters: client code fills them in as struct literals. Whatever alternative
 // such a value holds is what its encoding must parse to - a value that holds a schema encodes as that schema
 // (whatever its boolean says), one that holds none as its boolean / list / null.
@@ -403,6 +454,7 @@ func runC06(c *Ctx) {
 		}
 	}
 	c06Unions(c, g)
+	c06Unencodable(c, g)
 	for i := 0; i < c.N(300, 5000); i++ {
 		for _, b := range buildValues(c, g) {
 			enc, _ := json.Marshal(b.v)
